@@ -35,6 +35,11 @@ func isMacroDefinition(node ast.Node) bool {
 	if !ok {
 		return false
 	}
+	if _, ok = exp.Left.(*ast.Identifier); !ok {
+		// `m.x = macro(){...}`, `a[0] = macro(){...}`: not a definition (macros are named by plain identifiers);
+		// the statement stays in the program and evaluates to an error like any other misplaced macro literal.
+		return false
+	}
 	_, ok = exp.Right.(*ast.MacroLiteral)
 	return ok
 }
